@@ -26,6 +26,9 @@ pub enum Mutation {
     Prepend256 { seed: u64 },
     PrependOne(u8),
     Unrelated(BSpec),
+    /// pw' = pw || filler, longer than the 65535-byte encodable limit: must not log in
+    /// (any error; the invalid-login kind is only required for encodable passwords)
+    ExtendBeyondLimit { extra: u16, seed: u64 },
 }
 
 impl Mutation {
@@ -46,6 +49,7 @@ impl Mutation {
             Mutation::Prepend256 { .. } => "len+256-equal-tail",
             Mutation::PrependOne(_) => "prepend-byte",
             Mutation::Unrelated(_) => "unrelated",
+            Mutation::ExtendBeyondLimit { .. } => "extension-beyond-65535",
         }
     }
     /// produce pw' != pw; falls back to appending a NUL when the mutation does
@@ -137,6 +141,12 @@ impl Mutation {
                 v
             }
             Mutation::Unrelated(b) => b.bytes(),
+            Mutation::ExtendBeyondLimit { extra, seed } => {
+                let mut v = pw.to_vec();
+                let need = 65536usize.saturating_sub(pw.len()) + (*extra as usize % 300);
+                v.extend_from_slice(&gen::expand(need.max(1), *seed));
+                return v;
+            }
         };
         if out == pw || out.len() > 65535 {
             fallback_checked(pw)
@@ -172,6 +182,7 @@ pub fn mutation() -> BoxedStrategy<Mutation> {
         2 => any::<u64>().prop_map(|seed| Mutation::Prepend256 { seed }),
         1 => prop::sample::select(vec![0u8, b' ']).prop_map(Mutation::PrependOne),
         3 => gen::bytes_param().prop_map(Mutation::Unrelated),
+        2 => (any::<u16>(), any::<u64>()).prop_map(|(extra, seed)| Mutation::ExtendBeyondLimit { extra, seed }),
     ]
     .boxed()
 }
@@ -247,6 +258,7 @@ pub fn check(s: &'static dyn Proto, c: &Case, st: &mut Stats, _k: &KnownFindings
     st.eval(1);
     match &bad.client {
         Err(PErr::InvalidLogin) => {}
+        Err(_) if pw2.len() > 65535 => {}
         Err(e) => {
             return Err(Fail::new(format!(
                 "wrong password ({}) rejected with {e:?} instead of InvalidLogin",
@@ -297,7 +309,7 @@ pub fn check(s: &'static dyn Proto, c: &Case, st: &mut Stats, _k: &KnownFindings
 }
 
 pub const BUDGET: Budget = Budget {
-    quick: (300, 100, 36),
+    quick: (900, 300, 100),
     thorough: (3000, 800, 250),
     shrink: 200,
 };
@@ -305,7 +317,7 @@ pub const BUDGET: Budget = Budget {
 pub fn run(cfg: &RunCfg) -> (Outcome, EvidenceExtra) {
     let out = run_property(cfg, "C02", crate::suites::suites20(), BUDGET, strategy, check);
     let ev = EvidenceExtra {
-        rule: "case = (registered password, near-miss mutation, credential id, identities, context, tape); pw' = mutation(pw) != pw by construction (no rejection sampling). One evaluation = one login attempt with pw' against the record of pw, which must end in exactly Err(InvalidLoginError) at ClientLogin::finish; the same sessions with pw must succeed on both sides (positive control). non-trivial = every mutation class except 'unrelated'; distinct by hash of (suite, case)".into(),
+        rule: "case = (registered password, near-miss mutation, credential id, identities, context, tape); pw' = mutation(pw) != pw by construction (no rejection sampling); one class extends pw beyond the 65535-byte limit, where any error is accepted. One evaluation = one login attempt with pw' against the record of pw, which must end in exactly Err(InvalidLoginError) at ClientLogin::finish; the same sessions with pw must succeed on both sides (positive control). non-trivial = every mutation class except 'unrelated'; distinct by hash of (suite, case)".into(),
         assumptions: vec!["OPRF/hash collisions between different passwords do not occur".into()],
         exhaustive: None,
         extra: Default::default(),
